@@ -827,6 +827,143 @@ func (s *LexSpec) RefLex(input []rune, maxTokens int) []RefToken {
 	return out
 }
 
+// ModeAccess finds, for every non-default mode, a string of complete matches
+// that leaves the reference lexer in that mode with nothing pending and whose
+// last match cannot be extended by any character (so the state machine fires
+// the action whatever comes next). Modes for which no such string of at most
+// maxLen characters exists are absent.
+func (s *LexSpec) ModeAccess(maxLen int) map[int][]rune {
+	modes := s.Compile()
+	byName := map[string]int{}
+	for i, m := range modes {
+		byName[m.Name] = i
+	}
+	// alphabet: lower bounds of every position set, plus one character after
+	alpha := map[rune]bool{}
+	for _, m := range modes {
+		for _, p := range m.Pos {
+			for _, r := range p.Set {
+				alpha[r.Lo] = true
+			}
+		}
+	}
+	var letters []rune
+	for r := range alpha {
+		letters = append(letters, r)
+	}
+	sort.Slice(letters, func(i, j int) bool { return letters[i] < letters[j] })
+	if len(letters) > 24 {
+		letters = letters[:24]
+	}
+	type cfg struct {
+		str   []rune
+		mode  int
+		stack []int
+	}
+	// run one complete match of mode mi on str[from:]; returns end, winner or -1, closed
+	match := func(mi int, str []rune, from int) (int, int, bool) {
+		m := modes[mi]
+		set := map[int]bool{}
+		fresh := true
+		k := from
+		for k < len(str) {
+			next := map[int]bool{}
+			c := str[k]
+			if fresh {
+				for _, q := range m.First {
+					if m.Pos[q].Set.Has(c) {
+						next[q] = true
+					}
+				}
+			} else {
+				for p := range set {
+					for _, q := range m.Follow[p] {
+						if m.Pos[q].Set.Has(c) {
+							next[q] = true
+						}
+					}
+				}
+			}
+			if len(next) == 0 {
+				break
+			}
+			set, fresh = next, false
+			k++
+		}
+		if fresh || k != len(str) {
+			return k, -1, false
+		}
+		closed := true
+		for p := range set {
+			if len(m.Follow[p]) > 0 {
+				closed = false
+			}
+		}
+		for ri, r := range m.Rules {
+			if r.NG {
+				return k, -1, false // keep it simple: no non-greedy rules on the way
+			}
+			for _, l := range r.Last {
+				if set[l] {
+					return k, ri, closed
+				}
+			}
+		}
+		return k, -1, false
+	}
+	found := map[int][]rune{}
+	work := []cfg{{nil, 0, nil}}
+	seen := map[string]bool{}
+	for len(work) > 0 {
+		c := work[0]
+		work = work[1:]
+		// extend by one complete, closed match made of 1..3 letters
+		var rec func(tok []rune)
+		rec = func(tok []rune) {
+			if len(c.str)+len(tok) > maxLen || len(tok) > 3 {
+				return
+			}
+			if len(tok) > 0 {
+				full := append(append([]rune{}, c.str...), tok...)
+				end, win, closed := match(c.mode, full, len(c.str))
+				if win >= 0 && closed && end == len(full) {
+					mode, stack := c.mode, append([]int{}, c.stack...)
+					ok := true
+					for _, a := range modes[c.mode].Rules[win].Actions {
+						switch a.Kind {
+						case "push":
+							stack = append(stack, mode)
+							mode = byName[a.Arg]
+						case "pop":
+							if len(stack) == 0 {
+								ok = false
+							} else {
+								mode = stack[len(stack)-1]
+								stack = stack[:len(stack)-1]
+							}
+						}
+					}
+					if ok && modes[c.mode].Rules[win].Effect != "accum" {
+						key := fmt.Sprint(mode, stack)
+						if !seen[key] {
+							seen[key] = true
+							if _, have := found[mode]; !have && mode != 0 {
+								found[mode] = full
+							}
+							work = append(work, cfg{full, mode, stack})
+						}
+					}
+				}
+			}
+			for _, l := range letters {
+				rec(append(append([]rune{}, tok...), l))
+			}
+		}
+		rec(nil)
+	}
+	return found
+}
+
 // ---- printing ----
 
 func (s *LexSpec) firstToken() string {
@@ -924,6 +1061,21 @@ func (s *LexSpec) HarnessGo(pkg string) string {
 		sb.WriteString("\t\t\t},\n\t\t},\n")
 	}
 	sb.WriteString("\t},\n}\n\n")
+	sb.WriteString("// hModeAccess: a string of complete, non-extendable matches that enters the mode\nvar hModeAccess = map[int][]rune{")
+	acc := s.ModeAccess(6)
+	var mis []int
+	for mi := range acc {
+		mis = append(mis, mi)
+	}
+	sort.Ints(mis)
+	for _, mi := range mis {
+		fmt.Fprintf(&sb, "%d: {", mi)
+		for _, r := range acc[mi] {
+			fmt.Fprintf(&sb, "%d, ", r)
+		}
+		sb.WriteString("}, ")
+	}
+	sb.WriteString("}\n\n")
 	sb.WriteString("var hTokNames = map[int]string{EOF: \"EOF\", ERROR: \"ERROR\"")
 	for _, t := range s.Tokens {
 		fmt.Fprintf(&sb, ", %s: %q", t, t)
@@ -1199,13 +1351,36 @@ func H_RowInvariant() {
 // hold for strings of any length (within one match of the default mode).
 func H_Product() {
 	n := vrt.Param("alen", 0)
+	mi := vrt.Param("mode", 0)
 	sm := new(_LexerStateMachine)
-	m := hLexSpec.Modes[0]
+	m := hLexSpec.Modes[mi]
 	m.Prepare()
+	// enter the mode through complete matches (the action of the last one
+	// fires on the first call with the next rune, whatever it is)
+	prefix := hModeAccess[mi]
+	feed := func(x rune) bool {
+		for try := 0; try < 4; try++ {
+			switch sm.PushRune(x) {
+			case 0:
+				return true
+			case 1, 2, 3:
+				continue
+			default:
+				return false
+			}
+		}
+		return false
+	}
+	for _, x := range prefix {
+		if !feed(x) {
+			vrt.Assert(false, "mode-access-string-is-lexed")
+			return
+		}
+	}
 	var s []bool
 	for i := 0; i < n; i++ {
 		a := rune(vrt.Param(vrt.Name("a", i), 0))
-		if sm.PushRune(a) != 0 {
+		if !feed(a) {
 			vrt.Assert(false, "access-string-is-consumed")
 			return
 		}
@@ -1214,6 +1389,11 @@ func H_Product() {
 	r := vrt.Rune("r")
 	vrt.Assume(vrt.And(-1 <= r, r <= 0x10FFFF))
 	got := sm.PushRune(r)
+	if len(prefix) > 0 && n == 0 {
+		// the pending action of the last match of the prefix
+		vrt.Assert(got == 1 || got == 2 || got == 3, "boundary-action-fires-on-any-rune")
+		got = sm.PushRune(r)
+	}
 	s2 := m.Step(s, r)
 	ngc := m.NgComplete(s)
 	should := vrt.And(ref.AnyOf(s2), !ngc)
